@@ -12,6 +12,7 @@ func init() {
 		`SELECT 1 1 '\xZ1' x`, `SELECT ) b'ሴ' , '\u12' , '\U00110000' , '\ud800' , '\18' , '\q' , '\x4' FROM t`, "SELECT 1 1 `` FROM t", "SELECT ``",
 		`SELECT '''triple ' quote''', """a "" b""", r'''raw\n''', rb'\x', br"\\", R'x', B'y', Rb'z'`,
 		`SELECT 1 1 '''unterminated`, `SELECT 1 1 /* unterminated`, `SELECT 1 1 0x`, `SELECT 1 1 1e+ 2`, `SELECT 1 1 $ x`,
+		"SELECT b\"\\xa0\\xad\\x85\", \"a\u00a0b\u00ad\u0085\", `k\u00a0`, b'\xa0', '\\u00a0\\u00ad'", "CREATE TABLE `k\u00a0` (`c\u0085` INT64) PRIMARY KEY (`c\u0085`) x",
 		`a += 1`, `a -= 1`, `x -> x + 1`, `SELECT a[SAFE_OFFSET(1)], b[SAFE_ORDINAL(2)], c[ORDINAL(1)] FROM t`,
 		`FROM t ORDER BY a`, `FROM t LIMIT 1`, `FROM t |> WHERE a |> ORDER BY b |> LIMIT 1`, `WITH a AS (SELECT 1) WITH b AS (SELECT 2) SELECT 1`, `(WITH a AS (SELECT 1) SELECT 1) WITH`,
 		`SELECT 1 FROM a LOOKUP JOIN b ON true`, `SELECT 1 FROM a HASH JOIN b USING (x)`, `SELECT 1 FROM a CROSS JOIN b, c JOIN@{FORCE_JOIN_ORDER=TRUE} d ON true`,
